@@ -3,7 +3,7 @@ from contracts import radial
 from props.common import *  # noqa: F401,F403
 
 R_ = "ghedesigner.radial_numerical_borehole"
-FUNCTIONS = [f"{R_}:RadialNumericalBH.__init__#body", f"{R_}:RadialNumericalBH.fill_radial_cells"]
+FUNCTIONS = [f"{R_}:RadialNumericalBH.__init__#body", f"{R_}:RadialNumericalBH.partial_init", f"{R_}:RadialNumericalBH.fill_radial_cells"]
 NATIVE_FUNCTIONS = [f"{R_}:RadialNumericalBH.calc_sts_g_functions"]
 NATIVE_CASES = {"quick": 16, "thorough": 600}
 NATIVE_LIMIT_S = {"quick": 120, "thorough": 3000}
